@@ -215,6 +215,18 @@ pub fn heartbeat() {
         }
     });
 }
+/// The progress slot of the unit this thread is running, for helpers that do the unit's work on
+/// other threads (stateright's checker): they tick it with `tick()`.
+pub fn current_beat() -> Option<std::sync::Arc<AtomicU64>> {
+    WD_CUR.with(|c| c.borrow().clone())
+}
+
+pub fn tick(slot: &Option<std::sync::Arc<AtomicU64>>) {
+    if let Some(a) = slot {
+        a.store(wd_now(), Ordering::Relaxed);
+    }
+}
+
 static WD_NEXT: AtomicU64 = AtomicU64::new(1);
 static WD_ON: AtomicBool = AtomicBool::new(false);
 pub static WD_LIMIT_S: AtomicU64 = AtomicU64::new(30);
@@ -553,6 +565,7 @@ pub fn explore<S: Sys>(init: S, lim: &Limits) -> Explored<S> {
             break;
         }
     }
+    heartbeat();
     if lim.check_coreach && !out.cap_hit {
         // backward reachability from final states (and from states where a violation was already
         // reported, so that one defect is not reported twice)
@@ -566,6 +579,7 @@ pub fn explore<S: Sys>(init: S, lim: &Limits) -> Explored<S> {
         for i in &stack {
             ok[*i as usize] = true;
         }
+        heartbeat();
         while let Some(i) = stack.pop() {
             for &p in &rev[i as usize] {
                 if !ok[p as usize] {
@@ -613,6 +627,7 @@ pub fn validate_traces<S: Sys>(fresh: impl Fn() -> S, ex: &Explored<S>) -> Resul
         .chain(ex.final_traces.iter().map(|(t, k, _)| (t, k)));
     for (t, k) in all {
         for _round in 0..2 {
+            heartbeat();
             match replay_trace(fresh(), t) {
                 Ok(s) => {
                     if &s.key() != k {
@@ -648,6 +663,7 @@ pub fn panic_site(msg: &str) -> String {
 /// Returns the final object, or the first failure.
 pub fn replay_trace<S: Sys>(mut s: S, trace: &[S::Act]) -> Result<S, (String, String)> {
     for a in trace {
+        heartbeat();
         match guarded(|| s.invariant()) {
             Ok(r) => r?,
             Err(p) => return Err((format!("panic:{}", panic_site(&p)), p)),
